@@ -6,6 +6,7 @@ func init() {
 	register("A2.64", "write gate (64-bit buckets)", func(p *Prog) *RuleResult { return ruleTL(p, "A2", "64", 10) })
 	register("A3.64", "hand-off (64-bit buckets)", func(p *Prog) *RuleResult { return ruleTL(p, "A3", "64", 20) })
 	register("F3.32", "empty-result elision (32-bit): the result of every may-empty container operation that reaches a slot is tested with isEmpty, and every store of it is guarded by that test (or followed by the isEmpty->remove idiom)", func(p *Prog) *RuleResult { return ruleTL(p, "F3", "32", 15) })
+	register("F13.32", "in-place kernel results go back into the table: when an in-place container method that returns a container (iaddReturnMinimized, iremoveReturnMinimized, ior, iand, ixor, iandNot, iaddRange, iremoveRange, inot, lazyIOR ...) is applied to a container that sits in a slot, the returned container is stored into the table or returned to the caller", func(p *Prog) *RuleResult { return ruleTL(p, "F13", "32", 12) })
 	register("F3.64", "empty-result elision (64-bit buckets)", func(p *Prog) *RuleResult { return ruleTL(p, "F3", "64", 10) })
 }
 
